@@ -8,6 +8,10 @@ import BfeVerif.C15.Model
      C<i>           ClusterTable.Lookup through the request's snapshot        (one read)
      F<i>           request done (SvrDataConf = nil)
   result = `cur=<v>;1:s=<v>,r=<v>.<v>…;2:…`   (`-` = none)
+  op = `serve <c0>|<bl>|<fp>|<al>` (c = <version><n|s><g|b>): one request through the real ReverseProxy.ServeHTTP; c0 is loaded,
+     the request takes its snapshot, the reloads <bl> land before findProduct, <fp> between findProduct and
+     findCluster + cluster lookup, <al> after the lookup.  result =
+     `snap=<v>;prod=<v>;cl=<cluster name>;obj=<version of the resolved cluster object>;err=<code|->;cur=<v>`
   op = `stress <n>`: result `ok cur=<last good version>`; anything else is a torn request.
 -/
 namespace BfeVerif.C15
@@ -52,6 +56,62 @@ def implConsistent (impl : String) : Bool :=
       | _ => false
     | _ => false
 
+/-- (version, shared cluster name?, good files?) -/
+def parseCfg (s : String) : Option (Nat × Bool × Bool) :=
+  let cs := s.toList
+  let digits := cs.takeWhile Char.isDigit
+  match (String.ofList digits).toNat?, cs.dropWhile Char.isDigit with
+  | some v, [n, g] =>
+    if (n == 'n' || n == 's') && (g == 'g' || g == 'b') then some (v, n == 's', g == 'g') else none
+  | _, _ => none
+
+def parseCfgs (s : String) : Option (List (Nat × Bool × Bool)) :=
+  if s == "-" then some [] else (s.splitOn ",").mapM parseCfg
+
+def reloadSteps (cs : List (Nat × Bool × Bool)) : List Step :=
+  cs.flatMap fun c => [.load c.1 c.2.2, .swap c.1]
+
+def clusterNameOf (cfgs : List (Nat × Bool × Bool)) (v : Nat) : String :=
+  match cfgs.find? (fun c => c.1 == v) with
+  | some c => if c.2.1 then "shared" else s!"cl{v}"
+  | none => s!"cl{v}"
+
+def fieldOf (impl k : String) : String :=
+  match (impl.splitOn ";").find? (fun kv => kv.startsWith (k ++ "=")) with
+  | some kv => (kv.drop (k.length + 1)).toString
+  | none => "?"
+
+def runServe (body impl : String) : Ans :=
+  match body.splitOn "|" with
+  | [c0s, bls, fps, als] =>
+    match parseCfg c0s, parseCfgs bls, parseCfgs fps, parseCfgs als with
+    | some c0, some bl, some fp, some al =>
+      let all := c0 :: (bl ++ fp ++ al)
+      let steps := reloadSteps [c0] ++ [Step.snap 1] ++ reloadSteps bl ++ [.read 1] ++ reloadSteps fp ++
+        [.read 1, .read 1] ++ reloadSteps al
+      let fin := runSteps St.init steps
+      let r := fin.reqs 1
+      let showV := fun (o : Option Nat) => match o with | some v => toString v | none => "-"
+      let model := s!"snap={showV r.snap};prod={showV (r.reads[0]?)};cl=" ++
+        (match r.reads[1]? with | some v => clusterNameOf all v | none => "-") ++
+        s!";obj={showV (r.reads[2]?)};err=-;cur={fin.cur}"
+      -- spec oracle on the implementation's own line: product, cluster name and resolved cluster object all
+      -- belong to the version of the request's snapshot, and the request did not fail
+      let snap := fieldOf impl "snap"
+      let verdict :=
+        if impl.startsWith "PANIC" then "FAIL:panic"
+        else if fieldOf impl "prod" != snap then "FAIL:torn-product"
+        else if some (fieldOf impl "cl") != (snap.toNat?.map (clusterNameOf all)) then "FAIL:torn-cluster-name"
+        else if fieldOf impl "obj" != snap || fieldOf impl "err" != "-" then "FAIL:torn-cluster-lookup"
+        else "ok"
+      let mid := (bl ++ fp).filter fun c => c.2.2
+      { model := model, verdict := verdict,
+        tags := ["serve", s!"mid{min mid.length 3}"] ++ (if mid.isEmpty then [] else ["nt"]) ++
+          (if fp.any (fun c => c.2.2) then ["reload-after-product"] else []) ++
+          (if mid.any (fun c => c.2.1) && c0.2.1 then ["same-name-new-object"] else []) }
+    | _, _, _, _ => { model := "bad-op", verdict := "skip" }
+  | _ => { model := "bad-op", verdict := "skip" }
+
 def run (op impl : String) : Ans :=
   match op.splitOn " " with
   | ["sched", body] =>
@@ -71,6 +131,7 @@ def run (op impl : String) : Ans :=
       { model := renderSt fin n, verdict := verdict,
         tags := [s!"reloads{min reloads 3}", s!"reqs{min n 4}"] ++ (if failed > 0 then ["failed-reload"] else []) ++
           (if reloads > 0 && inflight then ["nt"] else []) }
+  | ["serve", body] => runServe body impl
   | ["stress", n] =>
     match n.toNat? with
     | none => { model := "bad-op", verdict := "skip" }
